@@ -576,7 +576,20 @@ func runCell(c cellID, ord, draw int) {
 		}
 		var ct []byte
 		var err error
-		if pn := lib.Try("hpke.Sealer.Seal", journal(pt, aad), func() { ct, err = sealer.Seal(pt, aad) }); pn != nil || err != nil {
+		// plaintext and aad are handed over as views of larger buffers (room
+		// for a tag behind them, as in a packet buffer): they and the octets
+		// behind them are the caller's and must be what they were afterwards
+		ptBuf := append(append(lib.Clone(pt), bytes.Repeat([]byte{0xC3}, 48)...))
+		aadBuf := append(append(lib.Clone(aad), bytes.Repeat([]byte{0x3C}, 48)...))
+		ptKeep, aadKeep := lib.Clone(ptBuf), lib.Clone(aadBuf)
+		ptArg, aadArg := ptBuf[:len(pt)], aadBuf[:len(aad)]
+		if pt == nil {
+			ptArg = nil
+		}
+		if aad == nil {
+			aadArg = nil
+		}
+		if pn := lib.Try("hpke.Sealer.Seal", journal(pt, aad), func() { ct, err = sealer.Seal(ptArg, aadArg) }); pn != nil || err != nil {
 			viol("C07:seal-error:"+aeadNames[c.aead], "seq", i, "err", err, "panic", fmt.Sprint(pn != nil))
 			return
 		}
@@ -586,17 +599,29 @@ func runCell(c cellID, ord, draw int) {
 			viol("C07:seal:"+aeadNames[c.aead], "seq", i, "pt", pt, "aad", aad, "got", ct, "want", want)
 			return
 		}
+		if !lib.Eq(ptBuf, ptKeep) || !lib.Eq(aadBuf, aadKeep) || lib.SharesMemory(ct, ptBuf) {
+			viol("C07:seal-writes-to-argument:"+aeadNames[c.aead], "seq", i, "pt_len", len(pt), "plaintext_buffer_changed", !lib.Eq(ptBuf, ptKeep),
+				"aad_buffer_changed", !lib.Eq(aadBuf, aadKeep), "ciphertext_inside_plaintext_buffer", lib.SharesMemory(ct, ptBuf))
+			return
+		}
 		if i == 0 {
 			ct0, aad0 = lib.Clone(ct), lib.Clone(aad)
 		}
 		var got []byte
-		if pn := lib.Try("hpke.Opener.Open", journal(ct, aad), func() { got, err = opener.Open(ct, aad) }); pn != nil || err != nil {
+		ctBuf := append(lib.Clone(ct), bytes.Repeat([]byte{0x5A}, 48)...)
+		ctKeep := lib.Clone(ctBuf)
+		if pn := lib.Try("hpke.Opener.Open", journal(ct, aad), func() { got, err = opener.Open(ctBuf[:len(ct)], aadArg) }); pn != nil || err != nil {
 			viol("C07:open-error:"+aeadNames[c.aead], "seq", i, "err", err, "panic", fmt.Sprint(pn != nil), "ct", ct, "aad", aad)
 			return
 		}
 		lib.Count("open-compared")
 		if !lib.Eq(got, pt) {
 			viol("C07:open:"+aeadNames[c.aead], "seq", i, "got", got, "want", pt)
+			return
+		}
+		if !lib.Eq(ctBuf, ctKeep) || !lib.Eq(aadBuf, aadKeep) || lib.SharesMemory(got, ctBuf) {
+			viol("C07:open-writes-to-argument:"+aeadNames[c.aead], "seq", i, "ciphertext_buffer_changed", !lib.Eq(ctBuf, ctKeep),
+				"plaintext_inside_ciphertext_buffer", lib.SharesMemory(got, ctBuf))
 			return
 		}
 	}
@@ -667,11 +692,12 @@ func runCell(c cellID, ord, draw int) {
 
 	// ---- mismatch matrix: ONE differing parameter on the receiver side
 	expExport, _ := expS.Export([]byte("mismatch"), nh)
+	useEnc := enc
 	try := func(param, variant string, skR kem.PrivateKey, info2 []byte, a setupArgs) {
 		lib.Count("mismatch:" + param)
 		lib.Case([]byte(c.String()), []byte("mismatch"), []byte(param), []byte(variant), seedR, ikmE)
 		rv, _ := suite.NewReceiver(skR, info2)
-		op, err, pn := receiverSetup(rv, a, enc)
+		op, err, pn := receiverSetup(rv, a, useEnc)
 		if pn != nil {
 			viol("C07:panic:receiver-setup", "param", param, "variant", variant, "panic", pn.Value, "frame", pn.TopFrame())
 			return
@@ -695,6 +721,35 @@ func runCell(c cellID, ord, draw int) {
 		if lib.Eq(exp, expExport) {
 			viol("C07:mismatch-accepted:"+param, "variant", variant, "what", "identical export", "export", exp)
 		}
+	}
+	// enc: the octets the receiver is given differ from the ones the sender
+	// produced (longer with the honest enc as a prefix, shorter, one bit
+	// flipped): kem_context binds the octets as received, so the setup fails
+	// or yields another key schedule
+	{
+		type ea struct {
+			name string
+			enc  []byte
+		}
+		alts := []ea{
+			{"appended-zero", append(lib.Clone(enc), 0)},
+			{"appended-16", append(lib.Clone(enc), r.Bytes(16)...)},
+			{"appended-itself", append(lib.Clone(enc), enc...)},
+			{"appended-64", append(lib.Clone(enc), r.Bytes(64)...)},
+			{"truncated", lib.Clone(enc[:len(enc)-1])},
+		}
+		if c.k.dh {
+			alts = append(alts, ea{"bitflip", lib.FlipBit(enc, r.Intn(8*len(enc)))}, ea{"top-bit", lib.FlipBit(enc, 8*len(enc)-1)})
+		} else {
+			// the middle of the ML-KEM / Kyber ciphertext (the masked bit 255 of
+			// the X25519 share of these hybrids is C01's exemption)
+			alts = append(alts, ea{"bitflip", lib.FlipBit(enc, 8*64+r.Intn(8*(len(enc)-128)))})
+		}
+		for _, a := range alts {
+			useEnc = a.enc
+			try("enc", a.name, R.sk, info, rargs)
+		}
+		useEnc = enc
 	}
 	// skR
 	R2 := derive(scheme, r.Bytes(scheme.SeedSize()))
